@@ -2020,6 +2020,9 @@ def _pnorm_diagweight(x, p, w):
         xp *= w.ravel(order)
         return np.max(xp)
     else:
+        if not np.issubdtype(xp.dtype, np.floating):
+            # integer data: the float power cannot be written in place
+            xp = xp.astype(np.float64)
         xp = np.power(xp, p, out=xp)
         xp *= w.ravel(order)
         return np.sum(xp) ** (1 / p)
